@@ -112,4 +112,10 @@ example : Heuristic.score_from_value (-120) 1 7 = some (Score.Centipawn (-120)) 
 example : Heuristic.score_from_value (-2147483648) 0 1 = none := by decide
 
 
+/-! axiom audit of the remaining `rs_*` theorems of this file -/
+#print axioms rs_win_score
+#print axioms rs_max_full_moves
+#print axioms rs_loss_score
+#print axioms rs_draw_score
+
 end Inkayaku.Translated
